@@ -16,9 +16,29 @@ def returned_dict_keys(fi, nested=False):
           keys.setdefault(s, x)
         elif isinstance(k, ast.Name):
           # `for kind, parser in <constant table>: ... return {kind: value}`
+          excluded = _excluded_before(fi.node, x, k.id)
           for v in loop_constants(fi, k.id):
-            keys.setdefault(v, x)
+            if v not in excluded:
+              keys.setdefault(v, x)
   return keys
+
+
+def _excluded_before(fn, stmt, name):
+  """constants that `name` cannot have at `stmt`: earlier statements of the
+  same block of the form `if name == C: return / continue / raise`."""
+  out = set()
+  for holder in ast.walk(fn):
+    for f in ('body', 'orelse', 'finalbody'):
+      block = getattr(holder, f, None)
+      if isinstance(block, list) and stmt in block:
+        for st in block[:block.index(stmt)]:
+          if isinstance(st, ast.If) and not st.orelse and st.body and \
+              isinstance(st.body[-1], (ast.Return, ast.Continue, ast.Raise, ast.Break)) and \
+              isinstance(st.test, ast.Compare) and len(st.test.ops) == 1 and \
+              isinstance(st.test.ops[0], (ast.Eq, ast.Is)) and dotted(st.test.left) == name and \
+              isinstance(st.test.comparators[0], ast.Constant):
+            out.add(st.test.comparators[0].value)
+  return out
 
 
 def loop_constants(fi, name):
@@ -44,6 +64,26 @@ def resolve_table(fi, e, depth=0):
     for y in fi.module.tree.body:
       if isinstance(y, ast.Assign) and any(isinstance(t, ast.Name) and t.id == e.id for t in y.targets):
         return resolve_table(fi, y.value, depth + 1)
+  # a generator function that only yields rows, called without arguments: the
+  # table is the sequence of its yields
+  if isinstance(e, ast.Call) and isinstance(e.func, ast.Name) and not e.args and not e.keywords:
+    g = fi.nested.get(e.func.id)
+    if g is None:
+      g = fi.module.funcs.get(e.func.id)
+    if g is not None:
+      rows = []
+      for st in g.node.body:
+        if isinstance(st, ast.Expr) and isinstance(st.value, ast.Constant) and \
+            isinstance(st.value.value, str):
+          continue          # docstring
+        if isinstance(st, ast.Expr) and isinstance(st.value, ast.Yield) and st.value.value is not None:
+          rows.append(st.value.value)
+        else:
+          return None
+      if rows:
+        t = ast.List(elts=rows, ctx=ast.Load())
+        ast.copy_location(t, g.node)
+        return t
   return None
 
 
